@@ -44,7 +44,7 @@ add('C01', ['C01Spec', 'C01', 'C01b', 'C01c', 'C01d', 'C01e', 'C01f', 'C01g', 'C
 add('C02', ['C02Block', 'C02Inline', 'C02X', 'C02Big', 'C02Fn'], PIPE + ['corr.extract', 'corr.code', 'corr.attrlist', 'corr.pipelinex'],
     'Lean 4 totality proofs: the block parsers (core and extended) never run out of fuel; for every `<`-free source the core pipeline with a provably sufficient inline fuel returns a string (never raises), the same for the extension pipeline with every subset of the eleven modelled extensions under decidable domain conditions; pipeline models tied by end-to-end correspondence; broad search for exceptions/timeouts',
     'PARTIAL: proved on the pipeline models for text without `<` (the model\'s own linear inline fuel is an explicit gap: C02_run_total_full); the stdlib HTML tokenizer, md_in_html/smarty/codehilite and CPython\'s recursion limit (F-C02-3) are outside the theorems — for them only the search speaks.')
-add('C03', ['C03Code', 'C03', 'C03Fenced', 'C03X'], ['corr.code', 'corr.pipelinex'] + PIPE,
+add('C03', ['C03Code', 'C03', 'C03Fenced', 'C03X', 'C16Legacy'], ['corr.code', 'corr.pipelinex', 'corr.legacyattrs'] + PIPE,
     'Lean 4 proofs: code_escape composed with the serializer escapes exactly once and reads back to the body (for all strings); fenced-code recogniser/stash theorems; code text carried through the pipeline model',
     'PARTIAL: the raw-HTML tokenizer interplay is outside (F-C03-1/2/4/5/6/7 live there); "whatever surrounds the code" is proved for the placements named in Props/C03*.lean (top-level documents of paragraphs and code blocks, spans, fenced blocks, each with every extension set), code inside lists/quotes with extensions by correspondence and search.')
 add('C04', ['C04', 'C04Text', 'C04Many'], ['corr.extract', 'corr.htmltok', 'corr.pipelineh'],
@@ -91,7 +91,7 @@ add('C16', ['C16Tables', 'C16Triggers', 'C16AttrList', 'C16Fenced', 'C16BlockExt
 add('C17', ['C17', 'C17Doc', 'C17Src', 'C16Order'], ['corr.toc', 'corr.pipelinex'],
     'Lean 4 proofs: unique() fresh + terminating (pigeonhole), assigned ids pairwise distinct, nest_toc_tokens flatten/outline theorems for all level sequences, footnote id bookkeeping (refs resolve, k refs → k distinct back-links)',
     'slugify and inline rendering of titles are parameters (theorems hold for every slugify); F-C17-1/2 are kernel-checked counterexamples.')
-add('C18', ['C18', 'C18Stash', 'C18X'], ['corr.dispatch', 'corr.inline', 'corr.registry'],
+add('C18', ['C18', 'C18Stash', 'C18X', 'C16Legacy'], ['corr.dispatch', 'corr.inline', 'corr.registry', 'corr.legacyattrs'],
     'Lean 4 proofs: dispatcher order = registry view (C13), run()->False falls through, order facts decided over the regenerated registration table; AtomicString skip and htmlStash restore theorems on the tree/post-processor models',
     'PARTIAL: a third-party processor can do anything; the contract is proved for the core pipeline\'s treatment of what a probe inserts. F-C18-1..4 (bundled tree processors re-reading atomic text) are known findings.')
 add('C19', ['C19'], ['corr.config'],
